@@ -316,6 +316,97 @@ def rule_response_scratch(chk):
         raise core.AnalysisError("grad-response-scratch: nothing matched")
 
 
+def _veff_signature(tree, rel):
+    """get_veff of one driver module: for grid_response on / off, which of the two returned quantities (the matrix =
+    first argument of lib.tag_array, the grid-response energy term = its exc1_grid keyword) receive a `+=` under
+    `mf.do_nlc()`.  Helpers (private module functions) are inlined; `g = ks_grad.grid_response` aliases are resolved."""
+    from sa import hinline
+    fn0 = ks.locate(tree, rel, "get_veff")[1]
+    fn = hinline.inline_helpers(fn0, _module_resolver(tree, rel), 2)
+    alias = {}
+    for st in pf.walk_no_nested(fn):
+        if isinstance(st, ast.Assign) and len(st.targets) == 1 and isinstance(st.targets[0], ast.Name):
+            alias.setdefault(st.targets[0].id, []).append(st.value)
+
+    def res(e):
+        if isinstance(e, ast.Name) and len(alias.get(e.id, ())) == 1 and not isinstance(alias[e.id][0], ast.Call):
+            return alias[e.id][0]
+        return e
+
+    def ev(t, gr):
+        t = res(t)
+        if isinstance(t, ast.UnaryOp) and isinstance(t.op, ast.Not):
+            v = ev(t.operand, gr)
+            return None if v is None else (not v)
+        if isinstance(t, ast.BoolOp):
+            vs = [ev(v, gr) for v in t.values]
+            if isinstance(t.op, ast.And):
+                return False if False in vs else (True if all(v is True for v in vs) else None)
+            return True if True in vs else (False if all(v is False for v in vs) else None)
+        if isinstance(t, (ast.Attribute, ast.Name)) and pf.src(t).split(".")[-1] == "grid_response":
+            return gr
+        return None
+
+    def under_nlc(t, pol):
+        t = res(t)
+        if isinstance(t, ast.UnaryOp) and isinstance(t.op, ast.Not):
+            return under_nlc(t.operand, not pol)
+        if isinstance(t, ast.BoolOp) and isinstance(t.op, ast.And) and pol:
+            return any(under_nlc(v, True) for v in t.values)
+        return pol and isinstance(t, ast.Call) and pf.call_name(t).split(".")[-1] == "do_nlc"
+
+    roles = {}
+    for c in pf.walk_no_nested(fn):
+        if isinstance(c, ast.Call) and pf.call_name(c).split(".")[-1] == "tag_array" and c.args:
+            if isinstance(c.args[0], ast.Name):
+                roles[c.args[0].id] = "matrix"
+            for kw in c.keywords:
+                if kw.arg == "exc1_grid" and isinstance(kw.value, ast.Name):
+                    roles[kw.value.id] = "energy"
+    if set(roles.values()) != {"matrix", "energy"}:
+        raise core.AnalysisError("%s:get_veff: `lib.tag_array(<matrix>, exc1_grid=<energy>)` not found" % rel)
+    if not any("grid_response" in pf.src(x) for x in pf.walk_no_nested(fn) if isinstance(x, ast.Attribute)):
+        raise core.AnalysisError("%s:get_veff no longer reads grid_response" % rel)
+    sig = {}
+    n_acc = 0
+    for st in pf.walk_no_nested(fn):
+        if not (isinstance(st, ast.AugAssign) and isinstance(st.op, ast.Add) and _root_name(st.target) in roles):
+            continue
+        conds = [(t, p) for t, p, _k in cfgm.conditions_at(st)]
+        if not any(under_nlc(t, p) for t, p in conds):
+            continue
+        n_acc += 1
+        for gr in (True, False):
+            if all(ev(t, gr) in (None, p) for t, p in conds):
+                sig.setdefault((gr, roles[_root_name(st.target)]), st)
+    if n_acc == 0:
+        raise core.AnalysisError("%s:get_veff: no `<matrix or energy> += <nlc term>` under `if mf.do_nlc():` was recognised" % rel)
+    return fn0, sig
+
+
+def rule_veff_sibling(chk):
+    """The RKS and UKS get_veff drivers add the same VV10 (nlc) terms to the same returned quantities in the same
+    grid_response case: the nlc matrix into the returned matrix, and -- with grid response -- the nlc weight/coordinate
+    response into the exc1_grid term.  The VV10 part is spin-summed, so the two drivers cannot legitimately differ."""
+    sigs = {rel: _veff_signature(chk.tree, rel) for rel in (RKSG, UKSG)}
+    for gr in (True, False):
+        for role in ("matrix", "energy"):
+            have = {rel: sigs[rel][1].get((gr, role)) for rel in (RKSG, UKSG)}
+            inst = "get_veff RKS/UKS agree on adding the nlc term to the returned %s when grid_response is %s" % (role, gr)
+            if (have[RKSG] is None) == (have[UKSG] is None):
+                chk.ok("grad-veff-sibling", inst, nontrivial=have[RKSG] is not None)
+                continue
+            lack, has = (RKSG, UKSG) if have[RKSG] is None else (UKSG, RKSG)
+            chk.violation("grad-veff-sibling", lack, "get_veff", "nlc term added to the %s with grid_response=%s" % (role, gr),
+                          sigs[lack][0].lineno,
+                          "with grid_response=%s and mf.do_nlc() true, %s:get_veff adds the nlc (VV10) term to the returned %s "
+                          "(`%s`) but %s:get_veff has no such accumulation on that path: the %s driver drops the VV10 %s, so its "
+                          "force is not the derivative of the energy / does not sum to zero over atoms" % (
+                              gr, has, "matrix" if role == "matrix" else "grid-response energy term (exc1_grid)",
+                              pf.src(have[has]), lack, "RKS" if lack == RKSG else "UKS",
+                              "matrix contribution" if role == "matrix" else "weight/coordinate response"), instance=inst)
+
+
 def rule_half(chk):
     ks.half_rule(chk, "grad-half", chk.tree, [(RKSG, n) for n in GRADS] + [(UKSG, n) for n in GRADS])
 
@@ -594,6 +685,9 @@ def _analyse_rules(chk):
     chk.guard(rule_dispatch_classes)
     chk.guard(rule_response_guards)
     chk.guard(rule_response_scratch)
+    chk.rule("grad-veff-sibling", "RKS and UKS get_veff add the same nlc (VV10) terms to the matrix / exc1_grid term per grid_response case")
+    chk.guard(rule_veff_sibling)
+    chk.floor("grad-veff-sibling", 2, "nlc matrix term (both cases) + nlc grid-response energy term, compared between the two drivers")
     chk.floor("grad-response-scratch", 2, "4 full-response drivers")
     chk.guard(rule_arglist_slots)
     chk.floor("grad-arglist-slots", 1, "ctypes argument lists of the interpolator")
@@ -615,6 +709,10 @@ def analyse(chk):
                                                why='the grid-response term is computed from per-spin cached convolutions; a cache entry aliasing a reusable buffer gives wrong UKS forces; stale generators after a geometry change give wrong forces at displaced geometries'))
     chk.guard(lambda c_: core.include_findings(c_, 'C10', files=['ciderpress/lib/mod_cider/conv_interpolation.c'], rules=None,
                                                why='a data race in the gradient-term kernels makes forces schedule dependent'))
+    chk.guard(lambda c_: core.include_findings(c_, 'C05', files=['ciderpress/dft/lcao_nldf_generator.py', 'ciderpress/dft/lcao_interpolation.py'],
+                                               rules=['py-reverse', 'py-select', 'py-branch'],
+                                               why='the gradient drivers contract the force from the wv that get_potential returns: a backward convolution that is not the '
+                                                   'mirror image of the forward one (a step guarded differently in the two directions) returns a wv that is not dE/drho'))
 
 
 def mutants(tree):
@@ -677,6 +775,11 @@ def mutants(tree):
                "            rks_grad._tau_grad_dot_(vtmp, mol, ao, wv[1, 4], mask, ao_loc, True)\n        vmat[1] += vtmp\n",
                "        vmat[1] += vtmp\n        if xctype == \"MGGA\":\n            rks_grad._tau_grad_dot_(vmat[1], mol, ao, wv[1, 4], mask, ao_loc, True)\n",
                count=1, expect="grad-response-scratch"),
+        Mutant("UKS get_veff drops the VV10 grid response", UKSG, "            exc += enlc\n            vxc += vnlc\n",
+               "            vxc += vnlc\n", count=1, expect="grad-veff-sibling"),
+        Mutant("RKS get_veff adds the VV10 matrix only with grid response", RKSG,
+               "                verbose=ks_grad.verbose,\n            )\n            vxc += vnlc\n    t0 = logger.timer",
+               "                verbose=ks_grad.verbose,\n            )\n    t0 = logger.timer", count=1, expect="grad-veff-sibling"),
         Mutant("RKS branch accepts every Kohn-Sham class", DFT, "if isinstance(self, dft.rks.RKS):",
                "if isinstance(self, dft.rks.KohnShamDFT) and not isinstance(self, dft.uks.UKS):", expect="dispatch-total"),
         Mutant("l=1 gradient block moved behind the derivative-table loop", LCAO_INTERP, "", "", fn=_l1_block_after_loop,
